@@ -126,9 +126,8 @@ func (r *run) finish(verdict, note string) {
 			h.Write([]byte{'\n'})
 		}
 		res.TraceHash = fmt.Sprintf("%x", h.Sum(nil)[:8])
-		if r.verbose {
-			res.Trace = r.k.trace
-		}
+		// always emitted: the process environment must not differ between a search run and its replay
+		res.Trace = r.k.trace
 	}
 	out, err := json.Marshal(res)
 	if err != nil {
@@ -182,17 +181,35 @@ func main() {
 	debug.SetGCPercent(-1)
 	metrics.UseNilMetrics = true
 	sarama.Logger = saramaLog
-	data, err := io.ReadAll(os.Stdin)
-	if err != nil {
-		fmt.Fprintln(os.Stderr, "read case:", err)
-		os.Exit(3)
+	// One fixed-size buffer: io.ReadAll would grow its buffer according to how the pipe happens to chunk
+	// the data, and every later heap address (hence the order of large pointer-keyed maps) would shift.
+	buf := make([]byte, 16<<20)
+	n := 0
+	for {
+		k, err := os.Stdin.Read(buf[n:])
+		n += k
+		if err == io.EOF {
+			break
+		}
+		if err != nil || n == len(buf) {
+			fmt.Fprintln(os.Stderr, "read case:", err)
+			os.Exit(3)
+		}
 	}
+	data := buf[:n]
+	var err error
 	var c cf.Case
-	if err := json.Unmarshal(data, &c); err != nil {
+	if err = json.Unmarshal(data, &c); err != nil {
 		fmt.Fprintln(os.Stderr, "parse case:", err)
 		os.Exit(3)
 	}
 	R = &run{c: &c, probes: map[string]int{}, faults: map[string]int{}}
+	if os.Getenv("SIM_ADDR") != "" {
+		x := new([64]byte)
+		y := new([200]byte)
+		z := make(chan int)
+		fmt.Fprintf(os.Stderr, "addr R=%p c=%p x=%p y=%p z=%p data=%p\n", R, &c, x, y, z, &data[0])
+	}
 	R.verbose = os.Getenv("SIM_VERBOSE") != ""
 	saramaLog.on = R.verbose && os.Getenv("SIM_SARAMA_LOG") != ""
 	sarama.PanicHandler = func(v interface{}) {
